@@ -1393,8 +1393,17 @@ class Interp:
         self.dom.on_stmt(st, frame)
         m = getattr(self, 'st_' + type(st).__name__, None)
         if m is None:
-            return          # statements without effect on the abstract state (Pass, Global, Import ...)
+            # a statement kind the interpreter has no rule for (match, a class statement inside a function, async forms ...): its effect on
+            # the state is not known, so the routine is not followed -- never skipped
+            raise AnalysisError('`%s` statement at line %d of %s is not followed' % (type(st).__name__, getattr(st, 'lineno', 0), frame.fi.qual if frame.fi is not None else '<module>'))
         return m(st, frame)
+
+    def st_Nonlocal(self, st, frame):
+        # assignments to these names go to the enclosing function's frame
+        frame.outer_names = set(getattr(frame, 'outer_names', ())) | set(st.names)
+
+    def st_Global(self, st, frame):
+        frame.global_names = set(getattr(frame, 'global_names', ())) | set(st.names)
 
     def st_Expr(self, st, frame):
         if isinstance(st.value, ast.Constant):
@@ -1682,6 +1691,16 @@ class Interp:
     # -- assignment --------------------------------------------------------
     def assign(self, target, v, frame, node, aug=False):
         if isinstance(target, ast.Name):
+            if target.id in getattr(frame, 'global_names', ()):
+                raise AnalysisError('assignment to the module-level name `%s` from inside a function (line %d) is not followed' % (target.id, getattr(node, 'lineno', 0)))
+            if target.id in getattr(frame, 'outer_names', ()):
+                f_ = frame.parent
+                while f_ is not None and target.id not in f_.env:
+                    f_ = f_.parent
+                if f_ is None:
+                    raise AnalysisError('nonlocal `%s` has no binding in an enclosing function (line %d)' % (target.id, getattr(node, 'lineno', 0)))
+                f_.env[target.id] = v
+                return
             frame.env[target.id] = v
         elif isinstance(target, (ast.Tuple, ast.List)):
             items = self.iterate(v, node)
